@@ -36,8 +36,8 @@ FILES = {
     "codebasin/config.py": ["C13", "C11", "C12", "C18"],
     "codebasin/report.py": ["C16", "C07", "C06", "C14", "C15"],
     "codebasin/__init__.py": ["C09", "C13", "C10", "C16", "C14", "C15", "C11"],
-    "codebasin/__main__.py": ["C10", "C06", "C18", "C14"],
-    "codebasin/tree.py": ["C10", "C06", "C15"],
+    "codebasin/__main__.py": ["C10", "C08", "C16", "C06", "C18", "C14"],
+    "codebasin/tree.py": ["C10", "C08", "C06", "C15"],
     "codebasin/coverage/__main__.py": ["C06", "C10"],
     "codebasin/language.py": ["C09", "C17", "C14"],
 }
